@@ -218,7 +218,7 @@ func c10backpressure(c *Check, rng *rand.Rand) {
 	must(err, "start env")
 	defer env.Close()
 	env.Cl.SetHandler(func(r *BReq) Action { return Action{Reply: StatusReply("OK")} })
-	for ep := 0; ep < c.Pick(3, 30); ep++ {
+	for ep := 0; ep < c.Pick(5, 40); ep++ {
 		if !env.P.Alive() {
 			c.Violate(Violation{Class: "proxy-died", Shape: "backpressure", Detail: env.P.PanicLine(), Witness: env.P.OutputTail(2000)})
 			return
@@ -259,12 +259,26 @@ func c10backpressure(c *Check, rng *rand.Rand) {
 			wg.Add(1)
 			go func(ci int, cl *Client) {
 				defer wg.Done()
-				for seq := 100; seq < 700; seq++ {
+				// keep sending, one small request per write, until the node has drained the
+				// whole parked backlog (the end of the drain is when a short backlog and an
+				// emptying ring coexist) and a little beyond
+				drained := func() bool {
+					n := 0
+					for _, bc := range victim.Conns() {
+						n += len(bc.Requests())
+					}
+					return n >= nclients*100
+				}
+				extra := 0
+				for seq := 100; seq < 6000 && extra < 300; seq++ {
 					slot := slots[0] + (ci*131+seq)%(slots[1]-slots[0]+1)
 					cl.Send(Req("GET", Key(slot, fmt.Sprintf("o%d.%d", base+ci, seq))))
 					sentN[ci]++
-					if seq%7 == 0 {
-						time.Sleep(150 * time.Microsecond)
+					if seq%5 == 0 {
+						time.Sleep(200 * time.Microsecond)
+						if drained() {
+							extra += 5
+						}
 					}
 				}
 			}(ci, cl)
